@@ -7,6 +7,10 @@ import (
 	"encoding/json"
 	"fmt"
 	"sort"
+
+	"github.com/emirpasic/gods/v2/sets/hashset"
+	"github.com/emirpasic/gods/v2/sets/linkedhashset"
+	"github.com/emirpasic/gods/v2/sets/treeset"
 )
 
 type setalgAux struct {
@@ -233,7 +237,7 @@ func setAlgJob[T comparable](j Job, r *JobResult, s *SetSys[T]) {
 		r.St = st
 		return
 	}
-	e := &Explorer{Sys: s, Want: j.Prop, NoState: true, OutGuard: j.Prop == "C17"}
+	e := &Explorer{Sys: s, Want: j.Prop, NoState: true, OutGuard: j.Prop == "C17", Beyond: true}
 	if f := e.Run(); f != nil {
 		r.Found = f
 		r.St = e.St
@@ -285,5 +289,132 @@ func init() {
 			s.Tuples = append(s.Tuples, []int{i})
 		}
 		setAlgJob(j, r, s)
+	}
+}
+
+// ---- large and lopsided operands, both constructor forms ---------------------------
+//
+// a = {0..na-1} for every na up to a bound, b = every subset of {0, na/2, na-1, 100, 101}; all
+// three operations in both orders; operands built by New() + Add and by New(values...) in all four
+// combinations (the library recognises "the same comparator" by code pointer, so the constructor
+// form must not matter).
+
+func setAlgBig(j Job, r *JobResult, kind string, maxA int) {
+	p := tag("C13")
+	cmpNat := intCmp("nat")
+	mk := func(form int, vals []int) *setAPI[int] { // form 0: New() then Add one by one; 1: New(values...)
+		switch kind {
+		case "hashset":
+			if form == 1 {
+				return wrapHashSet(hashset.New(vals...))
+			}
+			s := hashset.New[int]()
+			for _, v := range vals {
+				s.Add(v)
+			}
+			return wrapHashSet(s)
+		case "linkedhashset":
+			if form == 1 {
+				return wrapLinkedHashSet(linkedhashset.New(vals...))
+			}
+			s := linkedhashset.New[int]()
+			for _, v := range vals {
+				s.Add(v)
+			}
+			return wrapLinkedHashSet(s)
+		case "treeset":
+			if form == 1 {
+				return wrapTreeSet(treeset.New(vals...))
+			}
+			s := treeset.New[int]()
+			for _, v := range vals {
+				s.Add(v)
+			}
+			return wrapTreeSet(s)
+		}
+		panic("setalgbig kind " + kind)
+	}
+	sys := &SetSys[int]{Kind: kind, CmpN: "nat", Cmp: cmpNat}
+	r.St = Stats{Nested: map[string]int{}, PerSize: map[int]int{}, OpsHistogram: map[string]int{}, Exhaustive: true}
+	for na := 0; na <= maxA; na++ {
+		avals := intRange(0, na-1)
+		cands := []int{0, na / 2, na - 1, 100, 101}
+		for mask := 0; mask < 1<<uint(len(cands)); mask++ {
+			var bvals []int
+			seen := map[int]bool{}
+			for i, c := range cands {
+				if mask&(1<<uint(i)) != 0 && c >= 0 && !seen[c] {
+					seen[c] = true
+					bvals = append(bvals, c)
+				}
+			}
+			for forms := 0; forms < 4; forms++ {
+				for _, opn := range setAlgOps {
+					for order := 0; order < 2; order++ {
+						inflightSeq.Add(1)
+						a, b := mk(forms&1, avals), mk(forms>>1, bvals)
+						x, y, xv, yv := a, b, avals, bvals
+						if order == 1 {
+							x, y, xv, yv = b, a, bvals, avals
+						}
+						kx, ky := Canon(CanonOpts{}, x.obj), Canon(CanonOpts{}, y.obj)
+						var res *setAPI[int]
+						v := safeCheck(func() *Viol {
+							res = applySetAlg(x, y, opn)
+							want := setMathResult(sys, opn, xv, yv)
+							got := res.values()
+							if !sameAsSet(sys, got, want) {
+								return viol(p, "mismatch", "%s: {0..%d}%s / %v%s, %s (receiver first=%v): result %v, mathematical result %v", kind, na-1, formName(forms&1), bvals, formName(forms>>1), opn, order == 0, got, want)
+							}
+							if kind == "treeset" {
+								for i := 1; i < len(got); i++ {
+									if got[i-1] >= got[i] {
+										return viol(p, "mismatch", "%s: %s result %v is not in comparator order", kind, opn, got)
+									}
+								}
+							}
+							if Canon(CanonOpts{}, x.obj) != kx || Canon(CanonOpts{}, y.obj) != ky {
+								return viol(tag("C13", "C18"), "invariant", "%s: %s on {0..%d} / %v changed an operand", kind, opn, na-1, bvals)
+							}
+							if sh := append(SharedMemory(res.obj, x.obj), SharedMemory(res.obj, y.obj)...); len(sh) > 0 {
+								// behavioural confirmation: mutate the result, operands must not move
+								res.add(555)
+								res.remove(0)
+								if Canon(CanonOpts{}, x.obj) != kx || Canon(CanonOpts{}, y.obj) != ky {
+									return viol(p, "invariant", "%s: the result of %s on {0..%d} / %v shares %v with an operand: mutating it changed the operand", kind, opn, na-1, bvals, sh)
+								}
+							}
+							return nil
+						}, []string{"C13"}, "set algebra on large operands")
+						r.St.Transitions++
+						r.St.Nested["large_operand_cases"]++
+						if v == nil && j.Prop == "C17" {
+							v = outGuardCheck("set algebra on large operands")
+						}
+						if v != nil && v.Has(j.Prop) {
+							r.Found = &Found{V: v, Calls: []string{v.Msg}}
+							r.St.Exhaustive = false
+							return
+						}
+					}
+				}
+			}
+		}
+		r.St.States++
+		r.St.PerSize[na]++
+	}
+	r.St.Samples = []any{map[string]any{"system": kind + " large operands", "a": "{0..na-1} for na = 0.." + fmt.Sprint(maxA), "b": "every subset of {0, na/2, na-1, 100, 101}", "operations": setAlgOps, "both_orders": true, "constructor_forms": "New()+Add and New(values...) in all four combinations"}}
+}
+
+func formName(f int) string {
+	if f == 1 {
+		return " [New(values...)]"
+	}
+	return " [New()+Add]"
+}
+
+func init() {
+	jobKinds["setalgbig"] = func(j Job, r *JobResult) {
+		setAlgBig(j, r, j.s("c", ""), j.p("maxa", 40))
 	}
 }
